@@ -591,6 +591,76 @@ static void bilinear_and_constructors_2d(unsigned long long& unit)
 				}
 }
 
+// Query orders (added after seeded round 10): the oracles above reset the search state before every query, so a slip in the
+// hunting search (Hunt/Locate) that needs a particular call order could not reach them. Here nothing is reset: for each table,
+// every sequence of `depth` queries over the alphabet {knots, segment midpoints} is replayed on a fresh object, and every answer
+// is held to O1 (knot reproduced) / the cell range of the segment that really contains the query.
+static void query_orders(unsigned long long& unit)
+{
+	const char* part = "interp1d_orders";
+	const int depth = mc::quick() ? 4 : 5;
+	mc::bound("query_orders", "tables N=9,12 (uniform and geometric spacing, zig-zag ordinates); every sequence of " + std::to_string(depth) + " queries over knots and midpoints (|A|=2N-1) on a fresh object without resetting the search state; every answer checked");
+	long long seqs = 0, q = 0;
+	for(int N : {9, 12})
+		for(int geo = 0; geo < 2; geo++)
+		{
+			std::vector<double> x{0.25}, y;
+			for(int i = 1; i < N; i++) x.push_back(x.back() + (geo ? 0.125 * std::pow(1.7, i) : 1.0));
+			for(int i = 0; i < N; i++) y.push_back((i % 2 ? 5.0 + i : -1.0 - 0.5 * i));
+			ref::Steffen R(x, y);
+			const int A = 2 * N - 1;
+			std::vector<double> qs(A);
+			for(int l = 0; l < A; l++) qs[l] = (l % 2 == 0) ? x[l / 2] : x[l / 2] + 0.5 * (x[l / 2 + 1] - x[l / 2]);
+			for(int first = 0; first < A; first++)
+			{
+				if(!mc::mine(unit++)) continue;
+				std::vector<int> dims(depth - 1, A);
+				mc::Product pc(dims);
+				do
+				{
+					Interpolation I(x, y);
+					seqs++;
+					for(int s = 0; s < depth; s++)
+					{
+						int l	 = s == 0 ? first : pc.idx[s - 1];
+						double v = I.Interpolate(qs[l]);
+						q++;
+						bool ok;
+						std::string want;
+						if(l % 2 == 0)
+						{
+							int i = l / 2;
+							// after a history the hunting search may legitimately answer a knot from the segment to its left, so the
+							// tabulated value is returned to rounding (T2 of the adjacent segments), not necessarily bit for bit
+							ld sc = std::max(R.scale_value(std::max(0, i - 1)), R.scale_value(std::min(N - 2, i)));
+							ok	  = std::fabs(v - y[i]) <= (double)(K * U_ * sc) + K * mc::ETA;
+							want  = "tabulated " + mc::dec(y[i]);
+						}
+						else
+						{
+							int j	  = l / 2;
+							double lo = std::min(y[j], y[j + 1]), hi = std::max(y[j], y[j + 1]), tv = (double)(K * U_ * R.scale_value(j)) + K * mc::ETA;
+							ok		  = v >= lo - tv && v <= hi + tv;
+							want	  = "cell range [" + mc::dec(lo) + "," + mc::dec(hi) + "]";
+						}
+						if(!ok)
+						{
+							std::string h;
+							for(int t = 0; t <= s; t++) h += (t ? ">" : "") + std::to_string(t == 0 ? first : pc.idx[t - 1]);
+							mc::violation(part, std::string(part) + "|N=" + std::to_string(N) + (geo ? "_geometric" : "_uniform") + "|order=" + h + "|" + (l % 2 == 0 ? "knot_not_reproduced_after_history" : "outside_cell_range_after_history"), "I(" + mc::dec(qs[l]) + ")=" + mc::dec(v) + " " + want + " after the queries " + h + " (letters: 2i = knot i, 2j+1 = midpoint of segment j)", tdesc(x, y));
+						}
+					}
+				} while(pc.next());
+			}
+			if(mc::mine(0)) mc::sample("query orders on " + tdesc(x, y) + ": all " + std::to_string(depth) + "-sequences over " + std::to_string(A) + " letters", 4);
+		}
+	mc::count("query_order_sequences", seqs);
+	mc::count("query_order_queries", q);
+	mc::count("evaluations", seqs);
+	mc::count("distinct_nontrivial", seqs);
+	mc::count("transitions", q);
+}
+
 static int replay()
 {
 	auto m = mc::parse_case(mc::ctx().replay_case);
@@ -635,6 +705,7 @@ int main(int argc, char** argv)
 	long_tables(C, unit);
 	lines_and_parabolas(C, unit);
 	constructors(C, unit);
+	query_orders(unit);
 	mc::count("queries_1d", C.queries);
 	check_2d(unit);
 	bilinear_and_constructors_2d(unit);
